@@ -425,6 +425,7 @@ theorem agree_step (beh : Behaviour) (s : TermState) (vt : VT) (hA : Agree s vt)
       exact agree_modes s vt hA true 47 (by decide)
     | setSize e => exact absurd hw (by simp [Ev.WF, Op.WF])
     | rawWrite bs => exact absurd hw (by simp [Ev.WF, Op.WF])
+    | input bs => simpa [step] using hA
 
 /-- **the simulation theorem**: agreement holds after every in-domain history -/
 theorem agree_run (beh : Behaviour) (evs : List Ev) :
@@ -530,6 +531,7 @@ theorem step_log (beh : Behaviour) (s : TermState) (vt : VT) (hA : Agree s vt) (
       rw [feed_mode vt hg _ 47 0x68 true altBufferBytes_eq (Or.inl ⟨rfl, rfl⟩)]; simp [setMode_log]
     | setSize e => exact absurd hw (by simp [Ev.WF, Op.WF])
     | rawWrite bs => exact absurd hw (by simp [Ev.WF, Op.WF])
+    | input bs => exact ⟨[], by simp [step], rfl⟩
 
 /-- over a whole history the print log grows by exactly the requested cells, in order -/
 theorem run_log (beh : Behaviour) (evs : List Ev) :
